@@ -457,6 +457,31 @@ func ruleCOW5(r *Run) {
 			return false, ""
 		}
 		_ = recv
+		// bulk copies: copy(dst, src) / append(dst, src...) into the result graph share every element of src
+		eachInstr(fn, func(in ssa.Instruction) {
+			c, ok := in.(*ssa.Call)
+			if !ok {
+				return
+			}
+			b, ok := c.Call.Value.(*ssa.Builtin)
+			if !ok || (b.Name() != "copy" && b.Name() != "append") || len(c.Call.Args) < 2 {
+				return
+			}
+			st, ok := c.Call.Args[0].Type().Underlying().(*types.Slice)
+			if !ok {
+				return
+			}
+			unsafe, why := e.UnsafeToShare(st.Elem())
+			if !unsafe {
+				return
+			}
+			for _, el := range p.flattenAppend(c.Call.Args[1], 0) {
+				if shared, what := fromReceiver(el); shared {
+					r.bad(key+"/shares:bulk-"+b.Name(), in.Pos(), "clone copies elements of type %s from the published snapshot (%s) into the copy with %s, but %s: the copy and the snapshot share those objects, a later registration mutates memory that concurrent requests read (and a failed registration leaks into the live state)",
+						typeString(st.Elem()), what, b.Name(), why)
+				}
+			}
+		})
 		for _, w := range e.AllWrites(fn) {
 			if !w.Fresh {
 				r.bad(key+"/writes-receiver:"+w.Target(), w.Instr.Pos(), "clone writes %s of an object it did not allocate (%s): cloning mutates the published snapshot", w.Target(), w.Kind)
@@ -481,6 +506,53 @@ func ruleCOW5(r *Run) {
 					case *types.Map, *types.Slice:
 						unsafe, why = true, fmt.Sprintf("container %s is written in place by %s", containerKey, ws[0])
 					}
+				}
+			}
+			if w.Kind == "mapupdate" || w.Kind == "elem-store" {
+				// the element itself is a container that some writer overwrites in place (e.g. a filtered slice re-using its backing array)
+				if ws, ok := cm[w.Target()+"[]"]; ok {
+					unsafe, why = true, fmt.Sprintf("the elements of %s are written in place by %s", w.Target(), ws[0])
+				}
+			}
+			// a container built in a local variable and then stored into the result: its elements are checked here
+			if w.Kind == "store" {
+				for _, o := range p.origins(val, originOpts{}) {
+					switch o.(type) {
+					case *ssa.MakeMap, *ssa.MakeSlice:
+					default:
+						continue
+					}
+					eachInstr(fn, func(x ssa.Instruction) {
+						var elem ssa.Value
+						switch y := x.(type) {
+						case *ssa.MapUpdate:
+							if y.Map == o {
+								elem = y.Value
+							}
+						case *ssa.Store:
+							if ia, ok := y.Addr.(*ssa.IndexAddr); ok && ia.X == o {
+								elem = y.Val
+							}
+						}
+						if elem == nil {
+							return
+						}
+						eu, ewhy := e.UnsafeToShare(elem.Type())
+						if ws, ok := cm[w.Target()+"[]"]; ok {
+							eu, ewhy = true, fmt.Sprintf("the elements of %s are written in place by %s", w.Target(), ws[0])
+						}
+						ek := fmt.Sprintf("%s/shares:%s[]", key, w.Target())
+						if !eu {
+							r.ok(ek, x.Pos(), "elements of type %s may be shared: no writer mutates them in place (re-derived from EFFECTS)", typeString(elem.Type()))
+							return
+						}
+						if shared, what := fromReceiver(elem); shared {
+							r.bad(ek, x.Pos(), "clone puts %s (type %s) taken from the published snapshot into the copy's %s, but %s: a later registration or drop overwrites memory that concurrent requests are reading",
+								what, typeString(elem.Type()), w.Target(), ewhy)
+						} else {
+							r.ok(ek, x.Pos(), "fresh element of type %s", typeString(elem.Type()))
+						}
+					})
 				}
 			}
 			k := fmt.Sprintf("%s/shares:%s", key, w.Target())
